@@ -6,8 +6,9 @@ CONSTANTS
   MaxOps = 4
   MaxCommits = 1
   WithFault = FALSE
+  Spine = FALSE
   Emit = FALSE
-INVARIANTS RemoteUntouched CommitExact FaultReported CleanCommitNeverFails ViewEqIdeal
+INVARIANTS ViewEqIdealOL CommitExactRR FaultReportedRR RemoteUntouched CommitExact FaultReported CleanCommitNeverFails ViewEqIdeal
 VIEW ViewHist
-CONSTRAINT Clean
+CONSTRAINT Explorable
 CHECK_DEADLOCK FALSE
